@@ -414,17 +414,22 @@ def _fkey(p):
     return tuple(str(x).replace("-", "m").replace(".", "p").replace("e", "E").replace("+", "") for x in _pkey(p))
 
 
-def h_powell(s, dim, minimize, bounded):
+def h_powell(s, dim, minimize, bounded, iters=1):
     """Positions only depend on comparisons of objective values (bracketing + golden section), so they stay concrete while every objective
     value is symbolic. Clause: the reported objective is the objective of exactly the point returned."""
     mod = importlib.import_module("solvor.powell")
     obj = Obj(s, False, key=_fkey)
     x0 = [0.3, -0.2][:dim]
-    bounds = [(-1.0, 1.0)] * dim if bounded else None
-    res = mod.powell(obj, x0, minimize=minimize, bounds=bounds, max_iter=1, tol=1e-6)
+    # bound shapes: none, a proper box, and boxes with pinned (lo == hi) coordinates, where a line search has no room to move
+    shapes = {False: None, True: [(-1.0, 1.0)] * dim, "box": [(-1.0, 1.0)] * dim,
+              "pin_last": ([(-1.0, 1.0)] * dim)[:dim - 1] + [(0.25, 0.25)],
+              "pin_first": [(0.5, 0.5)] + [(-1.0, 1.0)] * (dim - 1),
+              "pin_all": [(0.5, 0.5), (-0.75, -0.75)][:dim]}
+    bounds = shapes[bounded]
+    res = mod.powell(obj, x0, minimize=minimize, bounds=bounds, max_iter=iters, tol=1e-6)
     s.check(res.objective == obj.value(res.solution), "powell.objective_is_f_of_returned_solution")
-    if bounded:
-        s.check(all(-1.0 - 1e-12 <= v <= 1.0 + 1e-12 for v in res.solution), "powell.solution_inside_bounds", detail=repr(res.solution))
+    if bounds:
+        s.check(all(lo - 1e-12 <= v <= hi + 1e-12 for v, (lo, hi) in zip(res.solution, bounds)), "powell.solution_inside_bounds", detail=repr(res.solution))
     s.goal("powell.run")
     s.observe("solution", [float(v) for v in res.solution])
     s.observe("objective", res.objective)
@@ -498,6 +503,7 @@ def items(tier, rng):
             it["split"] = exhaustive_split
         else:
             it["max_paths"] = mp or cap
+            it["spread"] = rng.randrange(1 << 30)  # capped tree: scatter the explored paths over all depths (see Explorer.spread)
         out.append(it)
 
     for mn in (True, False):
@@ -523,8 +529,10 @@ def items(tier, rng):
         for dim in (1, 2):
             add("nm", "h_nm", {"dim": dim, "iters": 2 + x, "minimize": mn})
         for dim in (1, 2):
-            for bounded in (False, True):
-                add("powell", "h_powell", {"dim": dim, "minimize": mn, "bounded": bounded}, mp=60 if q else 1500)
+            for bounded in (False, "box", "pin_last", "pin_first", "pin_all"):
+                if dim == 1 and bounded in ("pin_first", "pin_all"):
+                    continue
+                add("powell", "h_powell", {"dim": dim, "minimize": mn, "bounded": bounded}, mp=150 if q else 1500)
         for variant in ("bfgs", "lbfgs"):
             add(variant, "h_bfgs", {"variant": variant, "minimize": mn, "iters": 2 + x}, mp=120 if q else 3000)
         for acq in ("ei", "ucb"):
